@@ -615,5 +615,3 @@ func writeOut(args []string, s string) {
 		fmt.Print(s)
 	}
 }
-
-func maprangeMain(args []string) { writeOut(args, "") }
